@@ -150,7 +150,8 @@ def step (st : St) (ts : List String) : St × String :=
       | none => (st, "none")
       | some (a, b) => (st, s!"{a} {b}")
   | "gq" :: "poly" :: a :: b :: cs => (st, fF (gaussQuad (polyEval (cs.map pF)) st.rtol st.rules (pF a) (pF b)))
-  | ["gq", "stark", a, b, x0, fw] => (st, fF (starkI st (pF x0) (pF fw) (pF a) (pF b)))
+  | ["gq", "stark", a, b, x0, fw] =>
+      (st, fF (gaussQuad (starkFunction fns st.normC (pF x0) (pF fw)) st.rtol st.rules (pF a) (pF b)))
   | ["gq", "exp", a, b, k] => (st, fF (gaussQuad (fun x => Float.exp (pF k * x)) st.rtol st.rules (pF a) (pF b)))
   | ["gq", "runge", a, b, k] =>
       (st, fF (gaussQuad (fun x => 1.0 / (1.0 + pF k * x * x)) st.rtol st.rules (pF a) (pF b)))
